@@ -210,7 +210,11 @@ HARNESS(h_btree)
     for (unsigned step = 0; step < OPS; ++step) {
         uint8_t key = (uint8_t)nondet_below(KEYS), val = nondet_u8();
 #if GROUP == 0
+#ifdef OPK
+        unsigned op = OPK; OBS(key);       // one operation kind per query (the kinds are enumerated by the spec)
+#else
         unsigned op = nondet_below(4); OBS(op * 32 + key);
+#endif
         switch (op) {
         case 0: t_insert(*tp, m, key, val); break;
         case 1: { unsigned a = m_lower(m, key), b = m_upper(m, key); size_t r = (*tp).erase(key); CHECK(r == b - a, "erase(key) returns the number of removed entries"); m_erase_range(m, a, b); } break;
@@ -228,7 +232,11 @@ HARNESS(h_btree)
         default: { Tree::iterator it = (*tp).lower_bound(key); unsigned p = m_lower(m, key); if (it != (*tp).end()) { CHECK(p < m.n, "lower_bound below end"); (*tp).erase(it); if (p < m.n) m_erase_range(m, p, p + 1); } else CHECK(p == m.n, "lower_bound == end() exactly when no entry is >= key"); } break;
         }
 #else
+#ifdef OPK
+        unsigned op = OPK; OBS(key);
+#else
         unsigned op = nondet_below(6); OBS(op * 32 + key);
+#endif
         switch (op) {
         case 0: { Tree* c = new Tree(*tp); CHECK(*c == *tp && !(*c != *tp) && !(*c < *tp) && *c <= *tp && *c >= *tp, "a copy compares equal to the original"); compare_all(*c, m, key); delete tp; tp = c; } break;
         case 1: { Tree* c = new Tree(); c->insert(MKVAL(key, val)); *c = *tp; CHECK(*c == *tp, "assignment makes the trees equal"); compare_all(*c, m, key); delete c; } break;
